@@ -1397,9 +1397,11 @@ class SpanElement(ContentElement):
 
   ruby_attribute_qn = f"{{{xml_ns.TTS}}}ruby"
 
+  ruby_values = ("container", "base", "text", "delimiter", "baseContainer", "textContainer")
+
   @staticmethod
   def is_instance(xml_elem):
-    return xml_elem.tag == SpanElement.qn and SpanElement.get_ruby_attr(xml_elem) is None
+    return xml_elem.tag == SpanElement.qn and SpanElement.get_ruby_attr(xml_elem) not in SpanElement.ruby_values
 
   @staticmethod
   def get_ruby_attr(ttml_span):
@@ -1412,6 +1414,10 @@ class SpanElement(ContentElement):
     parent_ctx: typing.Optional[TTMLElement.ParsingContext],
     xml_elem: et.Element
   ) -> typing.Optional[SpanElement.ParsingContext]:
+    if SpanElement.get_ruby_attr(xml_elem) not in (None, "none"):
+      # the span is neither a ruby container nor a ruby component
+      LOGGER.error("Unknown tts:ruby value (%s)", SpanElement.get_ruby_attr(xml_elem))
+
     span_ctx = SpanElement.ParsingContext(SpanElement, parent_ctx, model.Span(parent_ctx.doc))
     span_ctx.process(parent_ctx, xml_elem)
     return span_ctx
